@@ -121,3 +121,15 @@ fn verif_concat5(a: &str, b: &str, c: &str, d: &str, e: &str) -> (r: String)
 // Display of Arc<str> is the string itself
 pub broadcast axiom fn axiom_to_string_arc_str(t: &std::sync::Arc<str>, r: String)
     ensures #[trigger] to_string_from_display_ensures::<std::sync::Arc<str>>(t, r) <==> r@ == t@;
+// ---- str::find and byte-offset arithmetic (used by VfsPath::create_dir_all)
+#[verifier::allow(undeclared_external_trait)]
+pub assume_specification<P: Pattern> [str::find] (s: &str, p: P) -> (r: Option<usize>)
+    ensures pat_as_char(p) matches Some(c) ==> ((r is None <==> first_index_of(s@, c) < 0) && (r matches Some(b) ==> b as int == byte_off(s@, first_index_of(s@, c))));
+pub broadcast axiom fn axiom_byte_off_add(cs: Seq<char>, a: int, k: int)
+    requires 0 <= a <= cs.len(), 0 <= k <= cs.len() - a
+    ensures #[trigger] byte_off(cs.subrange(a, cs.len() as int), k) + byte_off(cs, a) == byte_off(cs, a + k);
+pub broadcast axiom fn axiom_byte_off_end(s: &str)
+    ensures #[trigger] byte_off(s@, s@.len() as int) == s.spec_bytes().len(), s.spec_bytes().len() <= usize::MAX, byte_off(s@, 0) == 0;
+pub broadcast axiom fn axiom_byte_off_mono(cs: Seq<char>, a: int, b: int)
+    requires 0 <= a < b <= cs.len()
+    ensures #[trigger] byte_off(cs, a) < #[trigger] byte_off(cs, b);
